@@ -479,6 +479,30 @@ def translate_kkauto(out, names_out, untranslatable):
             raise Untranslatable(f"_add_noise: expected two draws rs.normal(0, sd) (real and imaginary part), found {normal}")
         out.append(f"/-- `_add_noise`: standard deviation of the two independent zero-mean normal draws added to Re and Im -/\ndef noise_sd : E := {sd}")
         names_out.extend(["est_pct_noise", "est_pseudo_chisqr", "noise_sd"])
+        # the target number of RC elements: where the extrapolated initial descent of log(chi2) reaches the lowest value.
+        # `_calculate_intercept_of_lines` and its two call sites in `_estimate_target_num_RC` (arguments inlined)
+        import pyimpspec.analysis.kramers_kronig.exploratory as EX
+        import pyimpspec.analysis.kramers_kronig.algorithms.utility.pseudo_chi_squared as PC
+        params, body = return_expr(PC._calculate_intercept_of_lines)
+        if params != ["s1", "o1", "s2", "o2"]:
+            raise Untranslatable(f"_calculate_intercept_of_lines: parameters {params}")
+        out.append(f"/-- `_calculate_intercept_of_lines(s1, o1, s2, o2)` -/\ndef intercept_of_lines : E := {py2e(body, {})}")
+        fn = ast.parse(textwrap.dedent(inspect.getsource(EX._estimate_target_num_RC))).body[0]
+        calls = [n for n in ast.walk(fn) if isinstance(n, ast.Call) and isinstance(n.func, ast.Name) and n.func.id == "_calculate_intercept_of_lines"]
+        calls.sort(key=lambda n: n.lineno)
+        if len(calls) != 2 or any(len(c.args) != 4 or c.keywords for c in calls):
+            raise Untranslatable("_estimate_target_num_RC: expected two positional calls of _calculate_intercept_of_lines")
+        names = {"p[0]": "p0", "p[1]": "p1", "min(y)": "ymin", "slope": "slope", "intercept": "intercept", "xy[1]": "ybest"}
+
+        def arg(a):
+            t = ast.unparse(a)
+            if t in names:
+                return f'(.var "{names[t]}")'
+            return py2e(a, {})
+        for label, c in (("target_fallback", calls[0]), ("target_main", calls[1])):
+            binding = dict(zip(params, [arg(a) for a in c.args]))
+            out.append(f"/-- `_estimate_target_num_RC`: the call `{ast.unparse(c)}` with its arguments inlined -/\ndef {label} : E := {subst(body, binding)}")
+        names_out.extend(["intercept_of_lines", "target_fallback", "target_main"])
     except Untranslatable as ex:
         untranslatable.append({"what": "KK noise kernels", "detail": str(ex)})
 
@@ -535,7 +559,7 @@ def generate(gen_dir, untranslatable):
     # cross-check about it fails
     expected = ["residual", "boukampWeight", "chisqrTerm", "zhit_rec_Y", "zhit_rec_Z", "zhit_offset_residual", "trnnls_A_re", "trnnls_A_im", "lm_tau", "lm_gamma",
                 "mrq_gamma_rc", "mrq_gamma_rq", "mrq_tau0", "fit_err_re", "fit_err_im", "fit_w_unity_re", "fit_w_unity_im", "fit_w_modulus_re", "fit_w_modulus_im",
-                "fit_w_proportional_re", "fit_w_proportional_im", "fit_w_boukamp_re", "fit_w_boukamp_im", "est_pct_noise", "est_pseudo_chisqr", "noise_sd",
+                "fit_w_proportional_re", "fit_w_proportional_im", "fit_w_boukamp_re", "fit_w_boukamp_im", "est_pct_noise", "est_pseudo_chisqr", "noise_sd", "intercept_of_lines", "target_fallback", "target_main",
                 "kk_kth_Y", "kk_kth_Z", "kk_cap_Y", "kk_cap_Z", "kk_ind_Y", "kk_ind_Z"]
     for m in ["_eq8", "_eq16", "_eq17", "_eq18", "_eq18_variant", "_eq19", "_eq20"]:
         expected += [f"Tlm{m}_impl", f"Tlm{m}_sym"]
